@@ -96,7 +96,7 @@ def run_stats(ctx, cfg):
     ctx.unknown.append(("check", label + ": 8 models of the uninterpreted functions did not replay with the real math functions"))
 
 
-def uf_check(ctx, cond, label, variables, is_bad, reinstall, tries=8):
+def uf_check(ctx, cond, label, variables, is_bad, reinstall, tries=8, regions=()):
     """Decide `cond` where ln/exp/log2 are uninterpreted.  unsat = holds for EVERY interpretation (in particular the real
     functions).  A model only shows that SOME interpretation separates the two sides, so it is replayed with the real math
     functions (`is_bad(values)` runs the real code unshimmed); a model that does not replay is blocked and the search goes on,
@@ -104,9 +104,18 @@ def uf_check(ctx, cond, label, variables, is_bad, reinstall, tries=8):
     import struct
     import z3
     ctx.reach(label)
-    for _ in range(tries):
-        r = ctx._check(z3.Not(cond))
+    r = ctx._check(z3.Not(cond))
+    if r == "unsat":
+        ctx.proved[label] = ctx.proved.get(label, 0) + 1
+        return True
+    # the two sides differ for SOME interpretation: look for an input where they differ with the real functions.  `regions`
+    # (optional extra constraints, tried in turn) spread the solver's models over the input range.
+    attempts = [None] * tries + list(regions)
+    for region in attempts:
+        r = ctx._check(z3.Not(cond), region) if region is not None else ctx._check(z3.Not(cond))
         if r == "unsat":
+            if region is not None:
+                continue
             ctx.proved[label] = ctx.proved.get(label, 0) + 1
             return True
         if r == "unknown":
